@@ -174,6 +174,18 @@ func RunFull(c *gen.Ctx, prop string, cfgs []xeng.Config, nops, perOp int, singl
 	if err != nil {
 		return err
 	}
+	// C06: one more probe whose schema declares its root operation types under other names
+	// (schema { mutation: Commands }): the executor must treat that root as the mutation root all the same
+	renamedIdx := -1
+	if schedules {
+		renamed := "schema { query: Query mutation: Commands subscription: Subscription }\n" + strings.Replace(xeng.ProbeSchema, "type Mutation {", "type Commands {", 1)
+		extra, err := xeng.BuildProbesRace(renamed, []xeng.Config{{Name: cfgs[0].Name + ",mutation-root-renamed", YAML: cfgs[0].YAML}}, nil, false)
+		if err != nil {
+			return err
+		}
+		renamedIdx = len(probes)
+		probes = append(probes, extra...)
+	}
 	for _, p := range probes {
 		if p.Built.GenErr != "" || p.Built.BuildErr != "" {
 			meta.Direct = append(meta.Direct, gen.DirectFinding{Signature: "probe-does-not-build", What: "generation or compilation of the probe server failed for config " + p.Cfg.Name,
@@ -256,6 +268,17 @@ func RunFull(c *gen.Ctx, prop string, cfgs []xeng.Config, nops, perOp int, singl
 			o2 := xeng.NewOracle()
 			o2.Fields["as.1.kids"] = xeng.FieldPlan{O: "null"}
 			plan = append(plan, planned{i, o2})
+		}
+		if strings.HasPrefix(q, "mutation Op { m1 m2") {
+			// non-null fields of the Mutation root (executed serially, on another code path of the object
+			// template than Query's): a failing one must null the whole data
+			for _, f := range []string{"m2", "m3.a1", "m4.other"} {
+				for _, kind := range []string{"error", "panic"} {
+					o := xeng.NewOracle()
+					o.Fields[f] = xeng.FieldPlan{O: kind, Tag: "pinned"}
+					plan = append(plan, planned{i, o})
+				}
+			}
 		}
 		if strings.Contains(q, "nodes { ...N") {
 			o := xeng.NewOracle()
@@ -347,6 +370,9 @@ func RunFull(c *gen.Ctx, prop string, cfgs []xeng.Config, nops, perOp int, singl
 		seen := map[string]bool{}
 		for pi := range probes {
 			res := all[pi][i]
+			if pi == renamedIdx && (op.op.Operation != ast.Mutation || strings.Contains(op.query, "__typename")) {
+				continue // the renamed probe is there for mutations; __typename would name the root differently
+			}
 			if res.Crashed || res.Hang {
 				meta.Direct = append(meta.Direct, gen.DirectFinding{Signature: "probe-crash-or-hang", What: "the generated server crashed or hung on an operation",
 					Replay: map[string]any{"config": probes[pi].Cfg.Name, "query": op.query, "variables": op.raw, "oracle": p.orc, "crashed": res.Crashed, "hang": res.Hang}})
